@@ -463,29 +463,146 @@ var breakers = []breakerSpec{
 	{Pkg: "internal/adapter/unifier", Type: "CircuitBreaker", FailField: "failures", LastFailField: "lastFailureTime", ExplicitHalfOpen: true},
 }
 
-// fieldWrite: instruction writes breaker field (atomic store/add/cas on &x.f, x.f.Store/Add/CompareAndSwap/Swap, or plain store); returns kind and stored constant if any.
+// atomicFieldCall describes a sync/atomic operation on a struct field: a direct atomic.Xxx(&s.f, …) call, or a call of
+// a small accessor method on the struct whose body performs exactly one such operation on its receiver
+// (s.addFailure(), s.claimAttempt(now)). kind ∈ load, store, add, cas, swap. val is the stored/added/new value at this
+// call site when it can be told (an argument or a constant), else nil.
+func atomicFieldCall(in ssa.Instruction) (kind string, owner types.Type, fld *types.Var, val ssa.Value, ok bool) {
+	cc := getCall(in)
+	if cc == nil || cc.IsInvoke() || len(cc.Args) == 0 {
+		return
+	}
+	ci := describeCall(cc)
+	if ci.Pkg == "sync/atomic" && ci.Recv == "" {
+		o, f, isF := fieldOf(cc.Args[0])
+		if !isF {
+			return
+		}
+		k := atomicKind(ci.Name)
+		if k == "" {
+			return
+		}
+		var v ssa.Value
+		if k != "load" {
+			v = cc.Args[len(cc.Args)-1]
+		}
+		return k, o, f, v, true
+	}
+	sc := cc.StaticCallee()
+	w := atomicWrapperOf(sc)
+	if w == nil {
+		return
+	}
+	var v ssa.Value
+	switch {
+	case w.valParam >= 0 && w.valParam < len(cc.Args):
+		v = cc.Args[w.valParam]
+	case w.valConst != nil:
+		v = w.valConst
+	}
+	return w.kind, w.owner, w.fld, v, true
+}
+
+func atomicKind(name string) string {
+	switch {
+	case strings.HasPrefix(name, "Load"):
+		return "load"
+	case strings.HasPrefix(name, "Store"):
+		return "store"
+	case strings.HasPrefix(name, "Add"):
+		return "add"
+	case strings.HasPrefix(name, "CompareAndSwap"):
+		return "cas"
+	case strings.HasPrefix(name, "Swap"):
+		return "swap"
+	}
+	return ""
+}
+
+type atomicWrapper struct {
+	kind     string
+	owner    types.Type
+	fld      *types.Var
+	valParam int
+	valConst ssa.Value
+	call     *ssa.Call
+}
+
+var atomicWrapperMemo = map[*ssa.Function]*atomicWrapper{}
+
+// atomicWrapperOf: fn is a method of a struct type whose body contains exactly one sync/atomic operation, on a field of
+// its receiver, and no other effect (no other repo call, store, send, go, defer).
+func atomicWrapperOf(fn *ssa.Function) *atomicWrapper {
+	if fn == nil || fn.Blocks == nil || fn.Signature.Recv() == nil || len(fn.Params) == 0 || len(fn.Blocks) > 4 {
+		return nil
+	}
+	if w, ok := atomicWrapperMemo[fn]; ok {
+		return w
+	}
+	atomicWrapperMemo[fn] = nil
+	var w *atomicWrapper
+	n, other := 0, false
+	eachInstr(fn, func(in ssa.Instruction) {
+		switch x := in.(type) {
+		case *ssa.Call:
+			ci := describeCall(&x.Call)
+			if ci.Pkg == "sync/atomic" && ci.Recv == "" && len(x.Call.Args) > 0 {
+				fa, isFA := x.Call.Args[0].(*ssa.FieldAddr)
+				if !isFA || fa.X != ssa.Value(fn.Params[0]) {
+					other = true
+					return
+				}
+				o, f, _ := fieldOf(fa)
+				n++
+				w = &atomicWrapper{kind: atomicKind(ci.Name), owner: o, fld: f, valParam: -1, call: x}
+				if w.kind != "load" && w.kind != "" {
+					v := x.Call.Args[len(x.Call.Args)-1]
+					if k, isK := v.(*ssa.Const); isK {
+						w.valConst = k
+					}
+					for i, p := range fn.Params {
+						if ssa.Value(p) == v {
+							w.valParam = i
+						}
+					}
+				}
+				return
+			}
+			if sc := x.Call.StaticCallee(); sc != nil && sc.Pkg != nil && strings.HasPrefix(sc.Pkg.Pkg.Path(), modPath) {
+				other = true
+			}
+			if x.Call.IsInvoke() {
+				other = true
+			}
+		case *ssa.Store, *ssa.Send, *ssa.Go, *ssa.Defer, *ssa.MapUpdate:
+			other = true
+		}
+	})
+	if n != 1 || other || w == nil || w.kind == "" {
+		return nil
+	}
+	atomicWrapperMemo[fn] = w
+	return w
+}
+
+// fieldWrite: instruction writes breaker field (atomic store/add/cas on &x.f — directly or through an accessor method of
+// the state struct —, x.f.Store/Add/CompareAndSwap/Swap, or plain store); returns kind and stored value if any. The
+// atomic call inside an accessor is not reported itself: its call sites stand for it.
 func breakerFieldWrite(in ssa.Instruction, b breakerSpec, field string) (bool, string, ssa.Value) {
 	if st, ok := in.(*ssa.Store); ok && isField(st.Addr, b.Pkg, b.Type, field) {
 		return true, "plain-store", st.Val
 	}
-	cc := getCall(in)
-	if cc == nil || cc.IsInvoke() || len(cc.Args) == 0 {
+	if atomicWrapperOf(in.Parent()) != nil {
 		return false, "", nil
 	}
-	ci := describeCall(cc)
-	if ci.Pkg != "sync/atomic" || !isField(cc.Args[0], b.Pkg, b.Type, field) {
+	kind, o, f, v, ok := atomicFieldCall(in)
+	if !ok || kind == "load" || f == nil || cfield(o, f) != field || !isNamed(o, b.Pkg, b.Type) {
 		return false, "", nil
 	}
-	name := ci.Name
-	switch {
-	case strings.HasPrefix(name, "Store"):
-		return true, "store", cc.Args[len(cc.Args)-1]
-	case strings.HasPrefix(name, "Add"):
-		return true, "add", cc.Args[len(cc.Args)-1]
-	case strings.HasPrefix(name, "CompareAndSwap"), strings.HasPrefix(name, "Swap"):
-		return true, "cas", cc.Args[len(cc.Args)-1]
+	if kind == "swap" {
+		kind = "cas"
 	}
-	return false, "", nil
+	return true, kind, v
 }
 
 // nothingToDoReturn: return under a nil-parameter guard, a comma-ok miss, or a `!enabled` configuration guard.
@@ -542,10 +659,10 @@ func checkC08(c *Ctx, r *Report) {
 					return
 				}
 				o, fld, _ := fieldOf(fa)
-				if !plain[fld.Name()] || !isNamed(o, b.Pkg, b.Type) {
+				if !plain[cfield(o, fld)] || !isNamed(o, b.Pkg, b.Type) {
 					return
 				}
-				key := fmt.Sprintf("%s:%s.%s", fname(f), b.Type, fld.Name())
+				key := fmt.Sprintf("%s:%s.%s", fname(f), b.Type, cfield(o, fld))
 				if _, fresh := fa.X.(*ssa.Alloc); fresh {
 					r.Triv("C08-R1", key, in.Pos(), "initialisation of a value not yet shared")
 					return
